@@ -200,16 +200,20 @@ def _validate_file(ctx, f):
     path, mode = f["path"], f["mode"]
     t0 = time.time()
     ok, rej = None, []
+    cover = 0
     if mode == "detailed":
         res, ok, rej = _validate(ctx, "Trace_detailed.cfg", path)
         if res.error and not rej:
             raise core.ToolError("TLC failed on %s: %s" % (path, (res.error or "")[:500]))
+        cover = len([l for l in res.out.splitlines() if l.startswith('<<"COVER", "%s"' % f.get("need_cover", "-"))])
+        if ok and f.get("need_cover") and cover == 0:
+            raise core.ToolError("vacuity: %s never reached the state it was built for (%s)" % (path, f["need_cover"]))
     pok, prej = True, []
     if mode == "props" or not ok:
         pres, pok, prej = _validate(ctx, "Trace_props.cfg", path)
         if pres.error and not prej:
             raise core.ToolError("TLC failed on %s (props): %s" % (path, (pres.error or "")[:500]))
-    return {"file": f, "ok": ok, "rej": rej, "pok": pok, "prej": prej, "wall": time.time() - t0}
+    return {"file": f, "ok": ok, "rej": rej, "pok": pok, "prej": prej, "wall": time.time() - t0, "cover": cover}
 
 
 def _binding_selftest(ctx, trace):
@@ -330,7 +334,7 @@ def run(ctx):
                     raise core.ToolError("%s: property-level validation neither accepted nor rejected" % label)
             ctx.coverage["traces_validated_against_impl"] += f["runs"]
             ctx.add_run(label, mode=f["mode"], events=f["events"], runs=f["runs"],
-                        detailed_accepted=v["ok"], props_rejected_runs=nrej,
+                        detailed_accepted=v["ok"], props_rejected_runs=nrej, window_full_and_consumed=v["cover"],
                         wall_s=round(v["wall"], 1))
             if f["mode"] == "detailed" and not v["ok"] and nrej == 0:
                 ctx.report_drift("%s: rejected by the detailed spec only: %s" % (label, " | ".join(v["rej"])[:400]))
